@@ -9,7 +9,8 @@
 (*                                            CODED the later steps are dropped BEFORE the rule is evaluated: a rule that *)
 (*                                            raises leaves the calculation truncated (PerformFails)                      *)
 (*   Clear / ProofClear                       clear() of any node, goal.proof.clear()                                     *)
-(* Rule.eval is a black box: here a table over a six-expression alphabet (FullSimplify, Equation to "n + 0" / "n").      *)
+(* Rule.eval is a black box: here a table over a six-expression alphabet (FullSimplify, Equation to "n + 0" / "n"); the   *)
+(* real FullSimplify also uses the conditions (under the case n = 0 it turns n into 0): such steps are divergences in T.   *)
 (* Expressions 1..6 = "n + 0", "n", "0", "n + 1", "1", "n + 2"; the equation l = r is the number 10 l + r; conditions    *)
 (* 91 "n >= 0", 92 "n = 0", 93 "n != 0"; definition 81 "f(n) = n + 0" (82 = "f(n)").                                    *)
 (* Invariants = the clauses of extras/X07.md:                                                                           *)
